@@ -4,3 +4,8 @@ open LhasaV.Props.C15
 #print axioms basic_end_sticky
 #print axioms no_dangling_header
 #print axioms headers_kind_independent
+#print axioms headers_independent
+#print axioms bytes_independent
+#print axioms decoders_honest
+#print axioms fake_once
+#print axioms next_never_faults
